@@ -43,6 +43,10 @@ def jobs(tier):
     for h in HASHERS:
         out.append(("hasher-seq.%s" % h, "job_hasher_seq", dict(hasher=h, P1=16384, P2=32768, K=5)))
         out.append(("hasher-seq-down.%s" % h, "job_hasher_seq", dict(hasher=h, P1=65536, P2=16384, K=4)))
+    # files around 1 MiB and 2 MiB (read-buffer sized boundaries that are neither block nor piece boundaries)
+    for h in HASHERS:
+        for base in (2 ** 20, 2 ** 21) if not q else ((2 ** 20,) if h != "FileHasher" else (2 ** 21,)):
+            out.append(("hasher-big.%s.P32768.base%d" % (h, base), "job_hasher", dict(hasher=h, P=32768, K=2, base=base)))
     # content dependent paths: a file whose tail (from a solver-chosen offset) is all zero bytes
     for h in HASHERS:
         out.append(("hasher-zeros.%s.P32768" % h, "job_hasher", dict(hasher=h, P=32768, K=3, zeros=True)))
@@ -110,9 +114,9 @@ def _witness(E, s, P):
     E.witness("5 pieces", s == 4 * P + 1)
 
 
-def job_hasher(E, hasher, P, K, zeros=False, _mutants=None):
+def job_hasher(E, hasher, P, K, zeros=False, base=0, _mutants=None):
     fs = AFS()
-    s = E.int("s0", 1, K * P)
+    s = E.int("s0", base + 1, base + K * P)          # base: a large fixed prefix (boundaries of read buffers far above a piece)
     content = ABuf.file(("f", 0), s)
     if zeros:
         z = E.int("zero_from", 0, None)          # bytes [zero_from, s) are zero
